@@ -62,10 +62,36 @@ func (p *printer) stmt(stmt ast.Stmt, nextIsRBrace bool) {
 
 		case *ast.GenDecl:
 			p.setComment(d.Doc)
+			isConst := d.Tok == token.CONST || d.Tok == token.Zh_常量
+			if isConst && (d.Lparen.IsValid() || len(d.Specs) != 1) {
+				// local constant group: `常量: ... 完毕`
+				p.print(d.Pos(), token.Zh_常量, token.COLON)
+				if len(d.Specs) > 0 {
+					p.print(indent, formfeed)
+					var line int
+					for i, s := range d.Specs {
+						if i > 0 {
+							p.linebreak(p.lineFor(s.Pos()), 1, ignore, p.linesFrom(line) > 0)
+						}
+						p.recordLine(&line)
+						p.spec_ValueSpec(s.(*ast.ValueSpec), 1, false)
+					}
+					p.print(unindent, formfeed)
+				} else {
+					p.print(formfeed)
+				}
+				p.print(d.Rparen, token.Zh_完毕)
+				break
+			}
 			assert(len(d.Specs) == 1)
 			if s, ok := d.Specs[0].(*ast.ValueSpec); ok {
-				assert(d.Tok == token.VAR)
-				p.print(d.Pos(), token.Zh_设定, token.K_点)
+				if isConst {
+					// local constant: `常量·名 = 值` (the parser accepts it in statement position)
+					p.print(d.Pos(), token.Zh_常量, token.K_点)
+				} else {
+					assert(d.Tok == token.VAR)
+					p.print(d.Pos(), token.Zh_设定, token.K_点)
+				}
 				p.spec_ValueSpec(s, 1, true)
 			} else {
 				panic("unreachable")
